@@ -36,7 +36,9 @@ Record world := mkW {
 Inductive wop :=
 | WS (k : nat) (o : op)                       (* call on store k *)
 | WMux (l : list nat)                         (* mux.providers = [stores[i] for i in l] *)
-| WGen (g : nat) (proposal : option string).  (* gens[g].generate_id(proposal) *)
+| WGen (g : nat) (proposal : option string)   (* gens[g].generate_id(proposal) *)
+| WNewFrom (k j : nat)                        (* stores[k] = DictObjectStore(stores[j])   (providers re-bound) *)
+| WNewList (k : nat) (xs : list obj).         (* stores[k] = DictObjectStore(<list / tuple / generator of xs>) *)
 
 Definition store_at (w : world) (k : nat) : st := nth k (w_stores w) [].
 Definition mux_of (w : world) : provider := mux (map (fun k => lookup (store_at w k)) (w_mux w)).
@@ -58,6 +60,17 @@ Definition wstep (pool : list ident) (w : world) (o : wop) : world * list Z :=
     let '(s', r) := step idof (store_at w k) o in
     (mkW (set_nth k s' (w_stores w)) (w_mux w) (w_gens w), enc_out r)
   | WMux l => (mkW (w_stores w) l (w_gens w), [0])
+  | WNewFrom k j =>
+    (* iterating the source store yields its objects in order; an exception of the constructor leaves stores[k] *)
+    match construct idof (iter (store_at w j)) with
+    | (s', OUnit) => (mkW (set_nth k s' (w_stores w)) (w_mux w) (w_gens w), [0])
+    | (_, r) => (w, enc_out r)
+    end
+  | WNewList k xs =>
+    match construct idof xs with
+    | (s', OUnit) => (mkW (set_nth k s' (w_stores w)) (w_mux w) (w_gens w), [0])
+    | (_, r) => (w, enc_out r)
+    end
   | WGen gi prop =>
     match nth_error (w_gens w) gi with
     | None => (w, [99])
